@@ -68,7 +68,14 @@ func NewRequestContext(ctx context.Context, req *envoy_auth.CheckRequest) *Reque
 	// via HTTP, the decoded form belongs into Path and the received one into RawPath. Otherwise, templates
 	// and expressions see escaped paths, URL.String() escapes them once more, and the allow_encoded_slashes
 	// setting of a rule is not honored
-	rawPath := req.GetAttributes().GetRequest().GetHttp().GetPath()
+	// envoy passes the request target as it appears in the request line in path, i.e. including the query
+	// string, and leaves query empty (see the documentation of AttributeContext.HttpRequest). Only if there
+	// is no query in path, the query field is used
+	rawPath, query, found := strings.Cut(req.GetAttributes().GetRequest().GetHttp().GetPath(), "?")
+	if !found {
+		query = req.GetAttributes().GetRequest().GetHttp().GetQuery()
+	}
+
 	path, _ := url.PathUnescape(rawPath)
 
 	return &RequestContext{
@@ -81,7 +88,7 @@ func NewRequestContext(ctx context.Context, req *envoy_auth.CheckRequest) *Reque
 			Host:     req.GetAttributes().GetRequest().GetHttp().GetHost(),
 			Path:     path,
 			RawPath:  rawPath,
-			RawQuery: req.GetAttributes().GetRequest().GetHttp().GetQuery(),
+			RawQuery: query,
 			Fragment: req.GetAttributes().GetRequest().GetHttp().GetFragment(),
 		},
 		reqBody:         req.GetAttributes().GetRequest().GetHttp().GetBody(),
